@@ -148,6 +148,22 @@ def one(c):
         su = abs(eps * u_t) + abs(u_xx) + abs(v0 - u0) + 1e-4; sv = abs(v_t) + abs(u0 - v0) + 1e-4
         worst_u = max(worst_u, float(abs(ru[0]) / su[0])); worst_v = max(worst_v, float(abs(rv[0]) / sv[0]))
     out['pde_u'] = worst_u; out['pde_v'] = worst_v
+    if c.get('fine'):
+        # fourth-order central differences (5-point stencils): truncation error ~1e-6, so a residual of 1e-3 is the solver's, not the stencil's
+        w4u = w4v = 0.0
+        for x, tau in c['points']:
+            h = 0.04; dt = 0.03 * tau
+            U = {}; V = {}
+            for j in (-2, -1, 0, 1, 2):
+                U[('x', j)], V[('x', j)] = uv(s, tb, z_of(x + j * h), t_of(tau))
+                U[('t', j)], V[('t', j)] = uv(s, tb, z_of(x), t_of(tau + j * dt))
+            d1 = lambda F, k_, st: (F[(k_, -2)] - 8 * F[(k_, -1)] + 8 * F[(k_, 1)] - F[(k_, 2)]) / (12 * st)
+            u_xx = (-U[('x', -2)] + 16 * U[('x', -1)] - 30 * U[('x', 0)] + 16 * U[('x', 1)] - U[('x', 2)]) / (12 * h * h)
+            u_t = d1(U, 't', dt); v_t = d1(V, 't', dt); u0 = U[('x', 0)]; v0 = V[('x', 0)]
+            ru = eps * u_t - u_xx - (v0 - u0); rv = v_t - (u0 - v0)
+            su = abs(eps * u_t) + abs(u_xx) + abs(v0 - u0) + 1e-4; sv = abs(v_t) + abs(u0 - v0) + 1e-4
+            w4u = max(w4u, float(abs(ru[0]) / su[0])); w4v = max(w4v, float(abs(rv[0]) / sv[0]))
+        out['pde_u_4th_order'] = w4u; out['pde_v_4th_order'] = w4v
     # Marshak condition at x = 0 (one-sided second-order difference)
     m = 0.0
     for tau in c['taus']:
@@ -190,7 +206,7 @@ def main(payload):
             out.append({'error': type(ex).__name__ + ': ' + str(ex)[:200], 'tb': traceback.format_exc()[-500:]})
     return out
 '''
-THRESH = {'pde_u': 2e-2, 'pde_v': 2e-2, 'marshak': 1e-3, 'far_field': 5e-4, 'opacity_scaling': 1e-6, 'boundary_temperature_scaling': 1e-6, 'table_eps_0p1': 3e-4}
+THRESH = {'pde_u': 2e-2, 'pde_v': 2e-2, 'pde_u_4th_order': 1.5e-4, 'pde_v_4th_order': 1.5e-4, 'marshak': 1e-3, 'far_field': 5e-4, 'opacity_scaling': 1e-6, 'boundary_temperature_scaling': 1e-6, 'table_eps_0p1': 3e-4}
 A4 = 3.02636565993931701e-14
 TABLE = [(1.0, 1.0, 0.26564, 0.13563), (0.5, 1.0, 0.38541, 0.20925), (0.0, 0.1, 0.43876, 0.03446), (2.5, 1.0, 0.08147, 0.03539), (0.1, 0.3, 0.44289, 0.10124)]
 
@@ -203,6 +219,11 @@ def cases(rng, n):
             P = {'trad_bc_ev': r4(rng, 200, 3000), 'opac': r4(rng, 0.3, 3), 'alpha': A4 * r4(rng, 0.3, 8)}
         pts = [[r4(rng, 0.2, 2.5), r4(rng, 0.3, 10)] for _ in range(3)]
         out.append({'params': P, 'points': pts, 'taus': [r4(rng, 0.3, 3), r4(rng, 3, 30)], 'k': r4(rng, 0.4, 2.5)})
+    # epsilon > 1 (alpha below 4a): decay rates 1 + 1/(eps eta) above and below 2; points near the wall at moderate tau, fourth-order stencil
+    for _ in range(max(1, n // 2)):
+        P = {'alpha': A4 / r4(rng, 1.3, 6.0)}
+        pts = [[r4(rng, 0.15, 0.8), r4(rng, 0.3, 2.5)] for _ in range(2)]
+        out.append({'params': P, 'points': pts, 'taus': [r4(rng, 0.3, 3)], 'k': r4(rng, 0.4, 2.5), 'fine': True})
     out.append({'what': 'table', 'opac': r4(rng, 0.5, 2), 'tb': r4(rng, 300, 2000), 'entries': TABLE})
     return out
 
